@@ -12,7 +12,8 @@ CONSTANTS OutFile, Mech, Gm, Algs, FaultKinds, NewOps, ReadOps, MaxOps, Window, 
 Hx == INSTANCE Hex
 Em == INSTANCE Emit
 VARIABLES nops, win, hist
-vars == <<inst, mech, gm, st, lastReseed, now, reply, wrap, strength, srck, srclog, nops, win, hist>>
+vars == <<inst, mech, gm, alg, st, lastReseed, now, reply, wrap, strength, srck, srclog, nops, win, hist>>
+Alg == CHOOSE a \in Algs : TRUE
 View == <<wrap, strength, IF srck > SrcCap THEN SrcCap ELSE srck, st.reseed_counter, win, IF Window >= MaxOps THEN nops ELSE 0>>
 
 LastK(s) == IF Len(s) <= Window THEN s ELSE SubSeq(s, Len(s) - Window + 1, Len(s))
@@ -32,7 +33,7 @@ Step(desc, ev) ==
 NNew(c, f) ==
   LET req == c \div 1000
       p == RP!Bytes(Seed, 900 + nops, c % 1000)
-  IN /\ New(Mech, Gm, req, p, f)
+  IN /\ New(Mech, Gm, Alg, req, p, f)
      /\ Step(<<"new", c, reply'.kind>>, [op |-> "new", strength |-> req, p |-> Hx!FromBytes(p), src |-> SrcJson(srclog'),
                             res |-> reply'.kind, calls |-> srck'])
 NRead(n, f) ==
